@@ -95,7 +95,9 @@ def read_rows(root):
     dbp = os.path.join(root, "cond-out", "version_index.sqlite")
     if not os.path.exists(dbp):
         return []
-    c = sqlite3.connect("file:%s?mode=ro" % dbp, uri=True)
+    # read-write on purpose: after a kill in the middle of a transaction a hot journal exists and the next
+    # connection (the next `cond`, or this one) rolls it back; a read-only connection cannot do that
+    c = sqlite3.connect(dbp)
     try:
         return [list(r) for r in c.execute("SELECT task_identifier, timestamp, git_commit_hash, has_uncommitted_changes FROM version_index ORDER BY 1,2")]
     except sqlite3.Error as ex:
